@@ -118,7 +118,7 @@ func c29Run(c c29Case) *eng.Fail {
 
 func init() {
 	checks["C29"] = eng.Check{
-		Rule:        "format(text, indent, width) for EVERY string over {a, b, space} of length <=10 (thorough 14) without leading space x remaining width 1..5 x indentation 0..2 (+ widths 6..9 on the strings of length <=8), and every string of <=5 runes over {a, space, é (2 bytes), € (3 bytes)} x widths 1..6: termination (watchdog), every line = indentation tabs + at most width characters, the non-space characters equal the text's in order, a word is split only if longer than the width. Non-trivial = text that needs more than one line.",
+		Rule:        "format(text, indent, width) for EVERY string over {a, b, space} of length <=10 (thorough 14) without leading space x remaining width 1..5 x indentation 0..2 (+ widths 6..9 on the strings of length <=8), and every string of <=5 runes over {a, space, é (2 bytes), € (3 bytes), à and Å (2 bytes ending in a0 / 85)} x widths 1..6: termination (watchdog), every line = indentation tabs + at most width characters, the non-space characters equal the text's in order, a word is split only if longer than the width. Non-trivial = text that needs more than one line.",
 		Assumptions: []string{"single-line text without leading spaces and at least one character of room (the property's domain)"},
 		Run: func(r *eng.Run) {
 			maxLen := 10
@@ -221,7 +221,8 @@ func init() {
 			r.Par(len(prefixes), func(i int) { rec(i, append([]byte{}, prefixes[i]...)) })
 			// multi-byte characters (2 and 3 bytes): every string of <=5 runes over {a, space, é, €}
 			// (the property counts what format counts: bytes)
-			runes := []string{"a", " ", "é", "€"}
+			// à and Å end in the bytes a0 and 85, which are white space when (mis)read as Latin-1
+			runes := []string{"a", " ", "é", "€", "à", "Å"}
 			var recU func(s string, n int)
 			recU = func(s string, n int) {
 				if s != "" {
